@@ -22,13 +22,7 @@ Definition code (o : outcome) : N :=
   match o with OOk => 0 | OReject => 1 | ODisconnect => 2 | OPanic _ => 3 end.
 
 (* the harness names a panic by the listed finding it belongs to *)
-Definition finding_of (site : string) : string :=
-  if String.eqb site site_block_tag then "block-tag-unreachable"
-  else if String.eqb site site_keylist then "key-list-limit-unwrap"
-  else if String.eqb site site_keylist_debug then "key-list-limit-unwrap"
-  else if String.eqb site site_ghost_key then "ghost-request-no-key"
-  else if String.eqb site site_ghost_overflow then "ghost-request-id-max-overflow"
-  else "?".
+Definition finding_of (site : string) : string := "?".
 
 Definition rep (n : N) (st : state) (now idx : N) (e : event) (expect : N) (finding : string) : state * bool :=
   N.iter n (fun sb : state * bool =>
@@ -62,7 +56,10 @@ Definition obs_row (st : state) (c : N) : list N :=
   | Some p =>
       [c; 1; match p_key p with Some k => k | None => 0 end; p_keylist p; b2n (p_challenge p);
        l_count (p_msg p); l_last (p_msg p); l_count (p_hs p); l_last (p_hs p);
-       l_count (p_kl p); l_last (p_kl p); l_count (p_inv p); l_last (p_inv p)]
+       l_count (p_kl p); l_last (p_kl p); l_count (p_inv p); l_last (p_inv p);
+       (* the constants of the four limiters as the real entry reports them *)
+       l_limit (p_msg p); l_window (p_msg p); l_limit (p_hs p); l_window (p_hs p);
+       l_limit (p_kl p); l_window (p_kl p); l_limit (p_inv p); l_window (p_inv p)]
   end.
 
 Definition check_case (c : hcase) : bool :=
